@@ -31,8 +31,9 @@ impl Indent {
 
     pub(crate) fn from_width(config: &Config, width: usize) -> Indent {
         if config.hard_tabs() {
-            let tab_num = width / config.tab_spaces();
-            let alignment = width % config.tab_spaces();
+            // `tab_spaces = 0` is accepted: nothing is block indented then.
+            let tab_num = width.checked_div(config.tab_spaces()).unwrap_or(0);
+            let alignment = width.checked_rem(config.tab_spaces()).unwrap_or(width);
             Indent::new(config.tab_spaces() * tab_num, alignment)
         } else {
             Indent::new(width, 0)
@@ -78,7 +79,12 @@ impl Indent {
 
     fn to_string_inner(&self, config: &Config, offset: usize) -> Cow<'static, str> {
         let (num_tabs, num_spaces) = if config.hard_tabs() {
-            (self.block_indent / config.tab_spaces(), self.alignment)
+            (
+                self.block_indent
+                    .checked_div(config.tab_spaces())
+                    .unwrap_or(0),
+                self.alignment,
+            )
         } else {
             (0, self.width())
         };
